@@ -726,23 +726,32 @@ func genReadFault(t *rapid.T) readFaultCase {
 	}
 	c.Kind = rapid.IntRange(0, len(faultKindNames)-1).Draw(t, "kind")
 	c.ByteReader = rapid.Bool().Draw(t, "br")
+	// known findings: a failure inside the logical line of a $GENERATE / $INCLUDE; the cut moves
+	// to the start of that line
 	if pbt.Known(kGenReadErr) {
-		// known finding: a failure inside the logical line of a $GENERATE; the cut moves to the
-		// start of that line
-		if at, moved := avoidGenerateLine(z.FileItems(c.File), c.Spans[c.File], txt, c.At); moved {
+		if at, moved := avoidDirectiveLine(z.FileItems(c.File), c.Spans[c.File], txt, c.At, zm.KGenerate); moved {
 			pbt.Excluded(kGenReadErr)
+			c.At = at
+		}
+	}
+	if pbt.Known(kIncReadErr) {
+		if at, moved := avoidDirectiveLine(z.FileItems(c.File), c.Spans[c.File], txt, c.At, zm.KInclude); moved {
+			pbt.Excluded(kIncReadErr)
 			c.At = at
 		}
 	}
 	return c
 }
 
+// kIncReadErr: a reader failure inside a $INCLUDE line does not stop the directive.
+const kIncReadErr = "include-read-error"
+
 // kGenReadErr: a reader failure inside a $GENERATE line does not stop the directive.
 const kGenReadErr = "generate-read-error"
 
-// avoidGenerateLine moves an offset that lies inside the logical line of a $GENERATE item (after
+// avoidDirectiveLine moves an offset that lies inside the logical line of a directive item (after
 // its first octet, up to and including its newline) to the start of that line.
-func avoidGenerateLine(items []zm.Item, spans []zm.LineSpan, txt string, at int) (int, bool) {
+func avoidDirectiveLine(items []zm.Item, spans []zm.LineSpan, txt string, at int, kind zm.ItemKind) (int, bool) {
 	starts := []int{0}
 	for i := 0; i < len(txt); i++ {
 		if txt[i] == '\n' {
@@ -750,11 +759,11 @@ func avoidGenerateLine(items []zm.Item, spans []zm.LineSpan, txt string, at int)
 		}
 	}
 	for j, it := range items {
-		if it.Kind != zm.KGenerate || j >= len(spans) || spans[j].First < 1 || spans[j].First > len(starts) {
+		if it.Kind != kind || j >= len(spans) || spans[j].First < 1 || spans[j].First > len(starts) {
 			continue
 		}
 		from := starts[spans[j].First-1]
-		to := len(txt)
+		to := len(txt) + 1 // the line has no newline: a failure at the very end is inside it
 		if spans[j].Last < len(starts) {
 			to = starts[spans[j].Last] // first octet of the next line
 		}
@@ -1241,6 +1250,20 @@ func init() {
 		}
 		if out.N > 0 {
 			return fmt.Errorf("%d records were built from a $GENERATE line that was not read to its end", out.N)
+		}
+		return nil
+	})
+	pbt.Probe(kIncReadErr, func() error {
+		files := extraFiles()
+		txt := "$INCLUDE inc1 sub ; comment\nz 300 IN A 10.0.0.9\n"
+		files["top.db"] = txt
+		cfg := parserCfg{File: "top.db", Origin: "example.", Allowed: true, UseFS: true, FaultFile: "top.db", FaultAt: strings.Index(txt, "sub"), FaultKind: 0}
+		out, viol := runParser(files, cfg, nil)
+		if viol != nil {
+			return fmt.Errorf("%s", strings.SplitN(viol.Error(), "\n", 2)[0])
+		}
+		if out.N > 0 {
+			return fmt.Errorf("%d records of the included file were returned (%v) although the $INCLUDE line was not read to its end (its origin argument was lost)", out.N, out.First)
 		}
 		return nil
 	})
